@@ -154,8 +154,9 @@ def render(spec):
         w.append(MEMBERS)
     ch = spec["child"]
     if ch:
-        w.append(decos(cinv) + ("@dataclasses.dataclass(slots=True)\n" if ch.get("dc_slots") else "") + "class Child(Root):\n")
-        if ch.get("dc_slots"):
+        w.append(decos(cinv) + ("@dataclasses.dataclass(slots=True)\n" if ch.get("dc_slots") else "@dataclasses.dataclass\n" if ch.get("dc_plain") else "")
+                 + "class Child(Root):\n")
+        if ch.get("dc_slots") or ch.get("dc_plain"):
             # dataclass(slots=True) creates the class a second time from the namespace of the first one
             w.append("    z: int = 0\n")
         if style == "slots":
@@ -271,6 +272,10 @@ def specs(tier):
                         if ctor in ("none", "first") and not overrides and style in ("plain", "no_init"):
                             out.append({"base": "DBC", "style": style, "invs": invs,
                                         "child": {"invs": cinvs, "ctor": ctor, "overrides": overrides, "adds": adds, "own_setattr": True}})
+                        if ctor == "none" and style == "no_init":
+                            # a plain (non-slots) dataclass: the constructor is generated and assigned AFTER the class has been created
+                            out.append({"base": "DBC", "style": style, "invs": invs,
+                                        "child": {"invs": cinvs, "ctor": ctor, "overrides": overrides, "adds": adds, "dc_plain": True}})
     for invs in ([["C"], ["C", "S"]] if tier == "quick" else inv_opts_q):
         for cinvs in (child_invs_q if tier == "quick" else child_invs_t):
             for ctor in ("first", "never"):
@@ -290,7 +295,7 @@ def feats(spec, op=None, seq=None):
     ch = spec["child"]
     return {"base": spec["base"], "style": spec["style"], "invs": "".join(spec["invs"]),
             "child": None if not ch else "{}|{}|{}{}{}".format("".join(ch["invs"]), ch["ctor"], "o" if ch["overrides"] else "-", "a" if ch["adds"] else "-",
-                                                              ("x" if ch.get("extends_prop") else "") + ("s" if ch.get("own_setattr") else "") + ("d" if ch.get("dc_slots") else "") + ("r" if ch.get("via_root") else "") + ("n" if ch.get("own_new") else "")),
+                                                              ("x" if ch.get("extends_prop") else "") + ("s" if ch.get("own_setattr") else "") + ("d" if ch.get("dc_slots") else "") + ("D" if ch.get("dc_plain") else "") + ("r" if ch.get("via_root") else "") + ("n" if ch.get("own_new") else "")),
             "child_invs": None if not ch else "".join(ch["invs"]), "ctor": None if not ch else ch["ctor"],
             "op": op, "first_op": seq[0] if seq else None,
             "has_setattr_inv": any(c in "SA" for c in spec["invs"] + (ch["invs"] if ch else [])),
